@@ -649,3 +649,23 @@ Goal exists cfg pd text, dom_C10 CGO pd = true /\ known_C10 CGO [] pd = [] /\ kn
     go_generate uc_exec cfg pd = Ok text /\ contains_sub (lit "type interface{}") text = true /\ c10_go_recognise text = None.
 Proof. exact Props.C10.C10_go_keyword_content_key_refuted. Qed.
 Print Assumptions Props.C10.C10_go_keyword_content_key_refuted.
+Goal forall (e : sw_enum) (tag content : str), swe_tagged e = Some (tag, content) ->
+  exists pre post, sw_render_enum e = (pre ++ Proofs.C10_SWKeys.sw_keys_block tag content ++ post)%list.
+Proof. exact Props.C10.C10_swift_container_keys_block. Qed.
+Print Assumptions Props.C10.C10_swift_container_keys_block.
+Goal forall tag content : str, Proofs.C10_SWKeys.c10_swg_key_ok tag = true -> Proofs.C10_SWKeys.c10_swg_key_ok content = true ->
+  c10_sw_recognise (Proofs.C10_SWKeys.sw_keys_block tag content ++ sw_nl)%list = Some 1%nat.
+Proof. exact Props.C10.C10_swift_container_keys_grammar. Qed.
+Print Assumptions Props.C10.C10_swift_container_keys_grammar.
+Goal exists fd,
+    Proofs.C10_SWFile.c10_sw_cfg_ok Proofs.C10_SWKeys.k_cfg = true /\ dom_C10 CSW Proofs.C10_SWKeys.k_prog = true /\
+    known_C10 CSW [] Proofs.C10_SWKeys.k_prog = [] /\
+    sw_generate uc_exec Proofs.C10_SWKeys.k_cfg Proofs.C10_SWKeys.k_prog = Ok Proofs.C10_SWKeys.k_text /\
+    good_C10_lex CSW Proofs.C10_SWKeys.k_text = true /\ c10_sw_recognise Proofs.C10_SWKeys.k_text = Some 2%nat /\
+    sw_file_decls uc_exec Proofs.C10_SWKeys.k_cfg Proofs.C10_SWKeys.k_prog = Ok fd /\ good_C10_kw CSW (fd_decls fd) = true /\
+    List.map d_tag_keys (fd_decls fd) = [[lit "case"; lit "case"; lit "case"; lit "case"]]%list /\
+    List.map d_content_keys (fd_decls fd) = [[lit "default"; lit "default"; lit "default"]]%list /\
+    contains_sub (Proofs.C10_SWKeys.sw_keys_block (lit "case") (lit "default")) Proofs.C10_SWKeys.k_text = true /\
+    good_C10_lex CSW Proofs.C10_SWKeys.k_text_before = true /\ c10_sw_recognise Proofs.C10_SWKeys.k_text_before = None.
+Proof. exact Props.C10.C10_swift_key_keyword_fixed. Qed.
+Print Assumptions Props.C10.C10_swift_key_keyword_fixed.
